@@ -61,6 +61,9 @@ CLAIMED['C31'] = ("every sequence of k<=4 prepare / commit / delete operations o
 CLAIMED['C17'] = ("the pieces returned by the real SplitStatementToPieces (which runs the real lexer, executed from SSA with symbolic bytes) equal a MySQL lexical reference splitter in number and text, for texts P1;P2[;] whose pieces are plain statements, string / quoted-identifier / comment forms, empty or blank, with a 1..2-byte symbolic insert over {; ' \" ` \\ * / newline a}",
     "template texts only (two pieces, one symbolic insert); keyword/identifier lexing beyond the templates and multi-byte characters are outside the bound; doMultiStmts' stop-at-first-failure loop is not covered; known finding C17-blank-before-single-semicolon")
 
+CLAIMED['C16'] = ("every sequence of k<=4 statement commands (well-formed execute with symbolic values / NULLs with and without the types block, truncated execute, send_long_data on either statement, reset, commands on an unknown id) on a session with two prepared statements, with a nondeterministic backend answer: each executed text is built from exactly this execution's values and the long data sent since the last execution, no bound value survives an execution (successful, failed or malformed), statements do not see each other's values, unknown ids fail",
+    "handleQuery is a recorder (mockey natively); string parameters of one symbolic letter (escaping is C15's subject); prepare/close commands themselves and more than two statements are outside the bound")
+
 NA_REASON = "check not built yet (work in progress; see DESIGN.md section 3 for the planned harness)"
 NA = {}
 
